@@ -31,6 +31,7 @@ import tempfile
 import urllib.parse
 
 import ZConfig
+import ZConfig.loader
 import ZConfig.validator
 
 from zcsim import corrupt
@@ -275,6 +276,8 @@ def generate(rng, tier, index):
         return graph_plan(index)
     if rng.random() < 0.01:
         return odd_keytype_plan(rng)
+    if rng.random() < 0.02:
+        return reentrant_plan(rng)
     # a third of the schemas also use application datatypes / key types
     # (zcsim.simdt): they reject with ValueError in every shape the language
     # allows (no message, several arguments, a subclass, raised "from"
@@ -457,6 +460,12 @@ def generate(rng, tier, index):
             for a_, b_ in zip([top] + names[:-1], names):
                 store[a_] = "%include " + b_.rsplit("/", 1)[-1] + "\n"
             labels.append("deep-include-chain")
+            for f_ in faults:
+                # with most of the stack taken by includes, whose error a
+                # RecursionError inside a datatype is cannot be told: the
+                # datatype raises an error of another class here
+                if f_["kind"].endswith("-foreign-recursion"):
+                    f_["kind"] = f_["kind"][:-len("recursion")] + "overflow"
     entry = rng.choice(["url", "url", "path", "file", "file-nourl"])
     if entry == "path" and not top.startswith("file:///sim/"):
         entry = "url"
@@ -551,7 +560,118 @@ def internal(o):
     return (not o["ok"]) and not o.get("cfgerr")
 
 
+REENTRANT_SCHEMA = """<schema>
+  <sectiontype name="zznest">
+    <key name="nk" datatype="zcsim.simdt.nested"/>
+  </sectiontype>
+  <sectiontype name="grp">
+    <multikey name="k" datatype="string"/>
+    <multisection type="zznest" name="*" attribute="n"/>
+  </sectiontype>
+  <multikey name="k" datatype="string"/>
+  <multisection type="grp" name="*" attribute="g"/>
+  <multisection type="zznest" name="*" attribute="n"/>
+</schema>
+"""
+
+
+def reentrant_plan(rng):
+    """A datatype of the application loads another text through the SAME
+    ConfigLoader while the outer load is between two of its lines.  Both
+    texts may be given under one URL (two unnamed streams have none), and
+    either may be corrupted."""
+    nest = ["<zznest x>", "nk go", "</zznest>"]
+    if rng.random() < 0.5:
+        nest = ["<grp g>", "k g1"] + nest + ["k g2", "</grp>"]
+    outer = ["k o1"] + nest + ["k o2"]
+    inner = ["k i1", "<grp h>", "k i2", "</grp>", "k i3"]
+    junk = ["<<<", "</grp>", "%nosuch x", "k $undefined", "nosuchkey 1",
+            "<zznest", "k", "%define a b c\n%define a d"]
+    for text in (outer, inner):
+        if rng.random() < 0.35:
+            text.insert(rng.randint(0, len(text)), rng.choice(junk))
+    urls = rng.choice([[None, None], [None, None],
+                       ["file:///sim/re/a.conf", "file:///sim/re/a.conf"],
+                       ["file:///sim/re/a.conf", "file:///sim/re/b.conf"],
+                       [None, "http://sim.test/re/b.conf"]])
+    return {"prop": ID, "kind": "reentrant", "realfs": False,
+            "outer": "\n".join(outer) + "\n",
+            "inner": "\n".join(inner) + "\n", "urls": urls,
+            "inner_error": rng.choice(["swallow", "valueerror", "pass-on"]),
+            "labels": [], "schema_xml": REENTRANT_SCHEMA, "store": {},
+            "top": urls[0] or "", "entry": "file", "overrides": [],
+            "faults": [], "validator": None}
+
+
+def execute_reentrant(plan):
+    out = {"evaluations": 0, "digests": [], "fired": {}, "probes": {},
+           "violations": [], "waste": 0, "log": []}
+
+    def violation(clause, detail, key):
+        k = {"clause": clause}
+        k.update(key)
+        out["violations"].append({
+            "sig": "C07|%s|%s|%s" % (clause, key.get("cls"), key.get("site")),
+            "key": k, "detail": detail, "plan": plan})
+
+    with SimWorld(store={}) as w:
+        w.begin_op("load-schema")
+        so = ops.schema_outcome(
+            lambda: ops.load_schema_text(REENTRANT_SCHEMA, SCHEMA_URL))
+        if not so["ok"]:
+            raise RuntimeError("C07 reentrant schema: " + ops.brief(so))
+        ld = ZConfig.loader.ConfigLoader(so["schema"])
+        inner = []
+
+        def hook(_value):
+            w.nested_hook = None
+            try:
+                try:
+                    ld.loadFile(io.StringIO(plan["inner"]), plan["urls"][1])
+                    inner.append({"ok": True})
+                except ZConfig.ConfigurationError as e:
+                    inner.append(ops.failure(e))
+                    if plan["inner_error"] == "valueerror":
+                        raise ValueError("the settings this value refers to "
+                                         "cannot be loaded: %s" % e)
+                    if plan["inner_error"] == "pass-on":
+                        raise
+                except Exception as e:
+                    inner.append(ops.failure(e))
+            finally:
+                w.nested_hook = hook
+        w.nested_hook = hook
+        w.begin_op("outer-load")
+        o = ops.config_outcome(lambda: ld.loadFile(
+            io.StringIO(plan["outer"]), plan["urls"][0]))
+        w.end_op("ok" if o["ok"] else o["cls"])
+        w.nested_hook = None
+        out["evaluations"] += 1 + len(inner)
+        out["probes"]["load-started-on-the-busy-loader"] = len(inner)
+        if plan["urls"][0] == plan["urls"][1]:
+            out["probes"]["both-loads-under-one-url"] = 1
+        for which, oc in [("outer", o)] + [("inner", x) for x in inner]:
+            if internal(oc):
+                violation("internal-exception",
+                          "%s escaped from the %s load (a load started on "
+                          "the busy ConfigLoader; urls %r): raised in %s, "
+                          "innermost ZConfig frame %s"
+                          % (ops.brief(oc), which, plan["urls"],
+                             oc.get("raised_in"), oc.get("site")),
+                          {"cls": oc["cls"], "site": oc.get("site"),
+                           "raised_in": oc.get("raised_in")})
+            if not oc["ok"]:
+                out["fired"]["reentrant-rejected:" + which] = out[
+                    "fired"].get("reentrant-rejected:" + which, 0) + 1
+        out["digests"].append(hashlib.sha256(json.dumps(
+            [plan["outer"], plan["inner"], plan["urls"],
+             plan["inner_error"]]).encode()).hexdigest()[:16])
+    return out
+
+
 def execute(plan):
+    if plan.get("kind") == "reentrant":
+        return execute_reentrant(plan)
     out = {"evaluations": 0, "digests": [], "fired": {}, "probes": {},
            "violations": [], "waste": 0, "log": []}
     scratch = None
@@ -861,6 +981,15 @@ def _execute(plan, out, scratch):
 # minimisation
 
 def shrink(plan):
+    if plan.get("kind") == "reentrant":
+        for which in ("outer", "inner"):
+            lines = plan[which].split("\n")[:-1]
+            for i in range(len(lines)):
+                new = dict(plan)
+                new[which] = "".join(x + "\n"
+                                     for x in lines[:i] + lines[i + 1:])
+                yield new
+        return
     if plan.get("expect") is not None:
         return
     if plan["schema_xml"] != "<schema/>\n":
@@ -923,6 +1052,11 @@ def shrink(plan):
 
 
 def sample(plan):
+    if plan.get("kind") == "reentrant":
+        return {"kind": "reentrant", "urls": plan["urls"],
+                "outer": plan["outer"].splitlines(),
+                "inner": plan["inner"].splitlines(),
+                "inner_error": plan["inner_error"]}
     return {"entry": plan["entry"], "top": plan["top"],
             "overrides": plan["overrides"], "realfs": plan["realfs"],
             "faults": plan["faults"], "labels": plan["labels"],
